@@ -444,6 +444,36 @@ def e4_foreign_content(run):
               fi.loc())
 
 
+def e6_foreign_writer(run):
+    run.rule("E6", "foreign (unknown) content is written back as it was read: "
+             "ExtensionElement.transfer_to_element_tree sets the element's own "
+             "text (not a child's tail), copies every attribute and appends "
+             "every child in order")
+    m = run.model
+    fi = m.func("ExtensionElement.transfer_to_element_tree")
+    cfg = cfg_of(fi, m)
+    tx = [nd for nd in cfg.by_kind("stmt") if isinstance(nd.ast, ast.Assign)
+          and isinstance(nd.ast.targets[0], ast.Attribute) and
+          nd.ast.targets[0].attr == "text" and
+          cfg.itext(nd.ast.value, nd.id) == "self.text"]
+    streaming = [c for c in ast.walk(fi.node) if isinstance(c, ast.Call) and
+                 isinstance(c.func, ast.Attribute) and
+                 c.func.attr in ("data", "start", "end") and
+                 "uilder" in unparse(c.func.value)]
+    run.check(bool(tx) and not streaming, "E6", fi.qual + "::own-text",
+              "element.text = self.text",
+              "the text of a foreign element is not assigned to the element "
+              "itself (a streamed builder puts text that follows a child into "
+              "that child's tail): mixed content changes on the way out",
+              fi.loc())
+    kids = _loop_over(cfg, lambda t: t == "self.children")
+    at = _loop_over(cfg, lambda t: t in ("self.attributes.items()",))
+    run.check(bool(kids) and bool(at), "E6", fi.qual + "::children-and-attributes",
+              "every child and attribute is written",
+              "children / attributes of foreign content are no longer all "
+              "written", fi.loc())
+
+
 def check(run):
     run.explanation = (
         "C12: exhaustive agreement of the generated tables for all schema "
@@ -463,6 +493,7 @@ def check(run):
     module_maps(run, data)
     engine_channels(run)
     e4_foreign_content(run)
+    e6_foreign_writer(run)
     from ..common_rules import shared_state_rule
     shared_state_rule(run, "E5", {"", "saml2_tophat", "extension_elements_to_elements"},
                       "parsing / serialising one element")
